@@ -85,7 +85,7 @@ func WorkerMain() {
 	// it and exits. The parent re-runs such cases alone under the long watchdog before calling it a hang.
 	var caseStart int64
 	var inCase int32
-	budget := int64(1000 * time.Millisecond)
+	budget := int64(400 * time.Millisecond)
 	if b, err := strconv.Atoi(os.Getenv("VERIF_ISO_CASE_BUDGET_MS")); err == nil && b > 0 {
 		budget = int64(b) * int64(time.Millisecond)
 	}
